@@ -53,3 +53,6 @@ META = {
   "shards": {"quick": 4, "thorough": 16},
   "soft_s": {"quick": 25, "thorough": 240},
 }
+
+# EXTENSION families added after the seeded-change rounds
+META["rule"] += (" Added after the seeded-change rounds: " '(c12_x) freq_response after overwriting an existing coefficient of numpoly/denpoly in place; FIR filters with complex (incl. unit-modulus) coefficients: impulse response, its DFT, steady-state gain' ".")
